@@ -77,10 +77,11 @@ def programs(tier):
 
 
 def run_case(case):
-    feat, expr, show_skipped, dry, dev = case
+    feat, expr, show_skipped, dry, dev = case[:5]
+    devkind = case[5] if len(case) > 5 else "fail"
     prog = (feat,)
     if dev is not None:
-        prog = P.set_outcome(prog, dev, "fail")
+        prog = P.set_outcome(prog, dev, devkind)
     cfg = {"tags": expr, "show_skipped": bool(show_skipped)}
     if dry:
         cfg["dry"] = True
@@ -91,7 +92,10 @@ def run_case(case):
     desel = [p for p, (k, i) in ref.info.items() if not ref.selected(i["tags"])]
     if not obs["escaped"]:
         executed = set(p for p, sid in obs["calls"])
-        if not dry and executed != set(sel):
+        # selected scenarios whose step functions the reference run calls (a selected scenario that starts with an
+        # undefined step calls none)
+        sel_called = set(p for p, sid in ref.calls)
+        if not dry and executed != sel_called:
             v.append(({"subcheck": "selection", "clause": "executed-set", "dialect": "v1" if ("-" in expr or "," in expr) else "v2",
                        "kind": "extra" if executed - set(sel) else "missing"},
                       "expression %r: executed %r, selected by the formula %r" % (expr, sorted(executed), sorted(sel))))
@@ -218,10 +222,18 @@ def cases(tier):
                 continue
             for expr in (("t", "not t", "t or u") if quick else EXPRS):
                 yield (feat, expr, 1, 0, pos)
+                # an UNDEFINED step in a selected / de-selected scenario, also in dry-run (undefined-step discovery
+                # must not reach into de-selected scenarios) and with skipped scenarios hidden
+                yield (feat, expr, 1, 1, pos, "undefined")
+                yield (feat, expr, 0, 0, pos, "undefined")
+                if not quick:
+                    yield (feat, expr, 0, 1, pos, "undefined")
+                    yield (feat, expr, 1, 0, pos, "pending")
 
 
 def run(ctx):
-    ctx.bounds = {"nonempty_tag_slots": 2 if ctx.quick else 3, "expressions": len(EXPRS), "switch_combinations": 4}
+    ctx.bounds = {"nonempty_tag_slots": 2 if ctx.quick else 3, "expressions": len(EXPRS), "switch_combinations": 4,
+                  "deviations": "one failing / undefined (also under --dry-run) / pending step at every step position"}
     ctx.sweep(run_case, cases(ctx.tier), chunk=48, name="tagged programs x expressions x switches")
     ctx.sweep(titleonly_case, titleonly_cases(ctx.tier), chunk=32,
               name="title-only scenarios (no steps, no background), tagged on every level")
